@@ -12,9 +12,9 @@ ID = "C17"
 TITLE = "Errors and @print output are attributed to the right file and line"
 RULE = (
     "Cases are workspaces ns/T.1.0 -> D1.1.0 -> ... (dependency chain of depth 0..3; every file a list of neutral lines: empty, "
-    "whitespace-only, comments, fields, constants, @assert true, the reference to the next file; LF or CRLF per file) with ONE fault of "
+    "whitespace-only, comments, fields, constants, @assert true, the reference to the next file, string literals containing `#` and quotes; 0..120 leading lines; the target optionally a service so that the fault lies in the response section; LF or CRLF per file) with ONE fault of "
     "a drawn category at a drawn line of a drawn file - syntax error, undefined identifier / bad operand in @assert, @print, a constant "
-    "initialiser or an array capacity, failed @assert, unknown / misplaced / duplicated directive, second `---`, bad attribute (reserved "
+    "initialiser or an array capacity, failed @assert, unknown / misplaced / duplicated directive, second `---`, errors on a dependency's attributes / constants, bad attribute (reserved "
     "name, out-of-range constant, named void, bad width), undefined type, and the definition-level faults missing @sealed, duplicate "
     "attribute names, union arity - or, separately, 1..5 uniquely numbered @print directives spread over the files.  Oracles: error.path "
     "is the faulty file; a statement-level fault reports the 1-based line of the faulty statement; a definition-level fault reports no "
@@ -63,6 +63,10 @@ STATEMENT_FAULTS: typing.Dict[str, typing.Tuple[typing.List[str], int]] = {
     "attribute:truncated-signed": (["truncated int8 ti"], 0),
     "attribute:zero-capacity": (["uint8[0] zero"], 0),
     "attribute:scalar-utf8": (["utf8 s"], 0),
+    "expr:dependency-attribute": (["@assert {DEP}.NOPE == 1"], 0),
+    "expr:dependency-constant-operand": (["@print {DEP}.K + true"], 0),
+    "expr:offset-compared-with-scalar": (["@assert _offset_ == 1"], 0),
+    "expr:string-with-hash": (["@assert '#' + \"a#b\" == 1  # tail"], 0),
     "type:undefined": (["Nope.1.0 missing"], 0),
     "type:undefined-in-array": (["ns.Nope.2.3[<=2] missing"], 0),
 }
@@ -71,7 +75,10 @@ DEFINITION_FAULTS = ["definition:missing-sealed", "definition:duplicate-names", 
 
 
 def _neutral() -> st.SearchStrategy:
-    return st.sampled_from(["", "", " ", "\t ", "# comment", "#", "  # indented comment", "FIELD", "FIELD", "CONST", "@assert true", "@print"])
+    return st.sampled_from(
+        ["", "", " ", "\t ", "# comment", "#", "  # indented comment", "FIELD", "FIELD", "CONST", "@assert true", "@print", "STRCONST", "@assert '#' != \"a'b\"  # not a comment start inside quotes",
+         "# comment with a quote ' and a hash #", "\x0c" if False else "@assert {1, 2}.count == 2"]
+    )
 
 
 def file_names(depth: int) -> typing.List[str]:
@@ -99,14 +106,29 @@ def build_files(case: typing.Any) -> typing.Tuple[typing.Dict[str, str], typing.
         fault_at = (fault["pos"] % (len(body) + 1)) if is_fault_file else -1
         print_positions = {p["pos"] % (len(body) + 1): p for p in case.get("prints", []) if p["file"] % len(names) == fi}
         union_arity = cat == "definition:union-arity"
+        for k in range(spec.get("lead", 0)):
+            lines.append("" if k % 3 == 1 else "# lead line %d" % k)
+            kinds.append("empty" if k % 3 == 1 else "comment")
         if union_arity:
             lines.append("@union")
             kinds.append("stmt")
+        lines.append("uint8 K = %d" % (fi + 1))
+        kinds.append("stmt")
+        dep_ref = names[fi + 1][: -len(".dsdl")] if fi + 1 < len(names) else "Nope.1.0"
+        split_at = None
+        if fi == 0 and spec.get("split") is not None and cat not in ("marker:second", "definition:union-arity", "definition:missing-sealed") and cat != "directive:union-after-attribute":
+            split_at = spec["split"] % (len(body) + 1)
+            seal_at = max(seal_at, split_at)
         for i in range(len(body) + 1):
+            if split_at is not None and i == split_at:
+                lines.append("@sealed")
+                kinds.append("stmt")
+                lines.append("---")
+                kinds.append("stmt")
             if i == fault_at and cat in STATEMENT_FAULTS:
                 flines, off = STATEMENT_FAULTS[cat]
                 for j, fl in enumerate(flines):
-                    lines.append(fl)
+                    lines.append(fl.replace("{DEP}", dep_ref))
                     kinds.append("fault" if j == off else "stmt")
             if i == fault_at and cat == "definition:duplicate-names":
                 lines.append("uint8 dup_name")
@@ -140,6 +162,10 @@ def build_files(case: typing.Any) -> typing.Tuple[typing.Dict[str, str], typing.
                 elif b == "CONST":
                     counter += 1
                     b = "uint16 C%d = %d" % (counter, counter)
+                    kinds.append("stmt")
+                elif b == "STRCONST":
+                    counter += 1
+                    b = "uint8 S%d = '#'  # a hash inside quotes" % counter
                     kinds.append("stmt")
                 elif b.startswith("@"):
                     kinds.append("stmt")
@@ -275,6 +301,8 @@ def _file_spec() -> st.SearchStrategy:
     return st.fixed_dictionaries(
         {
             "neutral": st.lists(_neutral(), max_size=8),
+            "lead": st.sampled_from([0, 0, 0, 3, 9, 10, 98, 99, 120]),
+            "split": st.one_of(st.none(), st.none(), st.integers(0, 20)),
             "ref_pos": st.integers(0, 20),
             "seal_pos": st.integers(0, 20),
             "crlf": st.booleans(),
